@@ -53,6 +53,7 @@ import (
 	"os/exec"
 	"path/filepath"
 	"sort"
+	"strconv"
 	"strings"
 )
 
@@ -132,6 +133,7 @@ type site struct {
 
 type source struct {
 	id, fn, call, url string
+	urlL              labels
 }
 
 // event: a step of a function in source order — a write to a sink or a transmission to the device
@@ -149,9 +151,9 @@ var (
 	info       *types.Info
 	fnByObj    = map[*types.Func]*fn{}
 	fnByLit    = map[*ast.FuncLit]*fn{}
-	litVar     = map[*types.Var]*fn{}    // name := func …
-	litTargets = map[*types.Var][]*fn{}  // function-typed parameter -> closures passed for it
-	named      []*types.Named            // every named type declared in the module
+	litVar     = map[*types.Var]*fn{}   // name := func …
+	litTargets = map[*types.Var][]*fn{} // function-typed parameter -> closures passed for it
+	named      []*types.Named           // every named type declared in the module
 	paramTaint = map[*fn][]labels{}
 	retTaint   = map[*fn][]labels{}
 	fieldTaint = map[*types.Var]labels{}
@@ -191,6 +193,67 @@ var sanitizers = map[string]map[string]string{
 	"apiRE":  {"T:key": "M:apiRE"},
 }
 
+// a sanitiser is recognised by the PATTERN its regexp was compiled from (the Lean matchers model
+// exactly these patterns), whatever the variable is called
+var sanitizerPatterns = map[string]string{
+	`(password=).*?(&|$)`: "passRE",
+	`<key>.*</key>`:       "keyRE",
+	`[?]key=.*?&`:         "apiRE",
+}
+
+// regexpOf: variable object -> pattern literal of `regexp.MustCompile(<literal>)` it is defined with
+var regexpOf = map[types.Object]string{}
+
+func collectRegexps(files []*ast.File) {
+	pat := func(e ast.Expr) (string, bool) {
+		c, ok := e.(*ast.CallExpr)
+		if !ok || len(c.Args) != 1 {
+			return "", false
+		}
+		se, ok := c.Fun.(*ast.SelectorExpr)
+		if !ok || se.Sel.Name != "MustCompile" && se.Sel.Name != "Compile" {
+			return "", false
+		}
+		bl, ok := c.Args[0].(*ast.BasicLit)
+		if !ok || bl.Kind != token.STRING {
+			return "", false
+		}
+		v := bl.Value
+		if strings.HasPrefix(v, "`") {
+			return strings.Trim(v, "`"), true
+		}
+		if u, err := strconv.Unquote(v); err == nil {
+			return u, true
+		}
+		return "", false
+	}
+	for _, f := range files {
+		ast.Inspect(f, func(n ast.Node) bool {
+			switch x := n.(type) {
+			case *ast.ValueSpec:
+				for i, name := range x.Names {
+					if i < len(x.Values) {
+						if p, ok := pat(x.Values[i]); ok {
+							regexpOf[info.Defs[name]] = p
+						}
+					}
+				}
+			case *ast.AssignStmt:
+				for i, lhs := range x.Lhs {
+					if id, ok := lhs.(*ast.Ident); ok && i < len(x.Rhs) {
+						if p, ok := pat(x.Rhs[i]); ok {
+							if o := objOf(id); o != nil {
+								regexpOf[o] = p
+							}
+						}
+					}
+				}
+			}
+			return true
+		})
+	}
+}
+
 var cleanCalls = map[string]bool{
 	"strings.HasPrefix": true, "strings.HasSuffix": true, "strings.Contains": true, "strings.ContainsAny": true,
 	"strings.Index": true, "strings.LastIndex": true, "strings.EqualFold": true, "strings.Count": true,
@@ -202,6 +265,37 @@ func exprText(e ast.Node) string {
 	var b bytes.Buffer
 	printer.Fprint(&b, fset, e)
 	return strings.Join(strings.Fields(b.String()), " ")
+}
+
+// alphaText prints an expression with the function's parameters and locals renamed to $1, $2 … in
+// order of first occurrence: the text is documentation and must not depend on local names.
+func alphaText(a *analysis, e ast.Node) string {
+	names := map[types.Object]string{}
+	var touchedIds []*ast.Ident
+	var orig []string
+	ast.Inspect(e, func(n ast.Node) bool {
+		id, ok := n.(*ast.Ident)
+		if !ok {
+			return true
+		}
+		o := objOf(id)
+		v, isVar := o.(*types.Var)
+		if !isVar || v.IsField() || v.Pkg() == nil || v.Parent() == v.Pkg().Scope() {
+			return true
+		}
+		if names[o] == "" {
+			names[o] = fmt.Sprintf("$%d", len(names)+1)
+		}
+		touchedIds = append(touchedIds, id)
+		orig = append(orig, id.Name)
+		id.Name = names[o]
+		return true
+	})
+	t := exprText(e)
+	for i, id := range touchedIds {
+		id.Name = orig[i]
+	}
+	return t
 }
 
 func hash32(s string) uint32 {
@@ -640,10 +734,11 @@ func (a *analysis) sinkOf(full string, c *ast.CallExpr, recv ast.Expr) (sink, ki
 	return "", "", nil, false
 }
 
-func (a *analysis) sourceID(c *ast.CallExpr) string {
-	base := a.f.key + "|" + exprText(c)
-	id := fmt.Sprintf("%d", hash32(base)%100000)
-	return id
+// sourceID: a failure kind is identified by the API whose error embeds the URL; the URL's taint class
+// is added when the kinds are printed (it is not known while markers are unresolved).
+func (a *analysis) sourceID(api string) string {
+	api = strings.NewReplacer("(*net/http.Client).", "http.Client.", "net/http.", "http.", "net/url.", "url.").Replace(api)
+	return api
 }
 
 // evalCall returns the labels of every result of the call.
@@ -702,9 +797,9 @@ func (a *analysis) evalCall(c *ast.CallExpr) []labels {
 	// sanitisers: the only ones
 	if full == "(*regexp.Regexp).ReplaceAllString" {
 		if id, ok := recv.(*ast.Ident); ok {
-			if _, ok := sanitizers[id.Name]; ok {
+			if name, ok := sanitizerPatterns[regexpOf[objOf(id)]]; ok {
 				if len(argL) > 0 {
-					return []labels{sanitize(id.Name, argL[0])}
+					return []labels{sanitize(name, argL[0])}
 				}
 				return []labels{{}}
 			}
@@ -712,9 +807,15 @@ func (a *analysis) evalCall(c *ast.CallExpr) []labels {
 	}
 	// network boundary / failure kinds
 	boundary := func(urlL labels, nData int) []labels {
-		id := a.sourceID(c)
+		id := a.sourceID(full)
 		if recording && !symbolic {
-			sources[id] = source{id: id, fn: a.f.key, call: exprText(c), url: concreteOnly(urlL).String()}
+			old := sources[id]
+			u := union(old.urlL, concreteOnly(resolve(urlL)))
+			fns := old.fn
+			if !strings.Contains(" "+fns+" ", " "+a.f.key+" ") {
+				fns = strings.TrimSpace(fns + " " + a.f.key)
+			}
+			sources[id] = source{id: id, fn: fns, call: alphaText(a, c), url: u.String(), urlL: u}
 		}
 		r := make([]labels, nData+1)
 		for i := range r {
@@ -856,14 +957,14 @@ func (a *analysis) resultsAt(t *fn, argL []labels) []labels {
 
 func (a *analysis) transmit(full string, c *ast.CallExpr, l labels) {
 	if recording && !symbolic {
-		events = append(events, event{fn: a.f.key, what: exprText(c), lbl: concreteKeepProv(resolve(l))})
+		events = append(events, event{fn: a.f.key, what: alphaText(a, c), lbl: concreteKeepProv(resolve(l))})
 	}
 }
 
 func (a *analysis) record(sink, kind string, args []ast.Expr, l labels) {
 	var parts []string
 	for _, arg := range args {
-		parts = append(parts, exprText(arg))
+		parts = append(parts, alphaText(a, arg))
 	}
 	l = concreteKeepProv(l)
 	if a.f.top.wrapper != "" {
@@ -873,6 +974,18 @@ func (a *analysis) record(sink, kind string, args []ast.Expr, l labels) {
 	}
 	sites = append(sites, site{pkg: a.f.pkg, fn: a.f.key, sink: sink, kind: kind, arg: strings.Join(parts, ", "), lbl: l})
 	events = append(events, event{fn: a.f.key, what: sink + "(" + strings.Join(parts, ", ") + ")", sink: true, siteIdx: len(sites) - 1, lbl: l})
+}
+
+// secretOnly: what of a taint matters for the identity of a site — raw and masked secrets with the
+// failure kind they came through; not device output, not the clean failure kinds that happen to flow by
+func secretOnly(l labels) labels {
+	r := labels{}
+	for k := range l {
+		if strings.HasPrefix(k, "T:") || strings.HasPrefix(k, "M:") || k == "wrapper" {
+			r[k] = true
+		}
+	}
+	return r
 }
 
 func concreteKeepProv(l labels) labels {
@@ -1411,6 +1524,7 @@ func main() {
 			}
 			conf := types.Config{Importer: imp, Error: func(err error) { problems = append(problems, fmt.Sprintf("type error: %v", err)) }}
 			tp, _ := conf.Check(path, fset, p.files, info)
+			collectRegexps(p.files)
 			imp.done[path] = tp
 			sorted = append(sorted, p)
 			progress = true
@@ -1546,10 +1660,40 @@ func main() {
 	b.WriteString("/-- kindCode: 1 session log, 2 run log, 3 history, 4 status file, 5 stdout, 6 stderr, 7 temporary file, 8 other file -/\n")
 	b.WriteString("structure Site where\n  id : Nat\n  taintCode : Nat\n  kindCode : Nat\n  kind : String\n  pkg : String\n  fn : String\n  sink : String\n  arg : String\n  taint : String\n\n")
 	b.WriteString("def sites : List Site := [\n")
+	// failure kinds: API + taint class of the URL (not the enclosing function, not the position)
+	srcClass := func(api string) string {
+		u := "clean"
+		if sc, ok := sources[api]; ok {
+			u = sc.url
+		}
+		return api + "[" + u + "]"
+	}
+	// taint CLASS of a site: provenance `@<api>` becomes `@<api>[<url class>]`
+	classOf := func(l labels) string {
+		var ks []string
+		seen := map[string]bool{}
+		for k := range l {
+			if base, at, ok := strings.Cut(k, "@"); ok {
+				k = base + "@" + srcClass(at)
+			}
+			if !seen[k] {
+				seen[k] = true
+				ks = append(ks, k)
+			}
+		}
+		if len(ks) == 0 {
+			return "clean"
+		}
+		sort.Strings(ks)
+		return strings.Join(ks, "+")
+	}
+	// id of a site: package, sink kind, taint class, ordinal among the sites of that package with the
+	// same kind and class (such sites are interchangeable) — no function name, no argument text, no
+	// local names, no positions
 	ord := map[string]int{}
 	siteID := make([]uint32, len(sites))
 	for i, s := range sites {
-		base := s.pkg + "|" + s.fn + "|" + s.sink + "|" + s.kind + "|" + s.arg + "|" + s.lbl.String()
+		base := s.pkg + "|" + s.kind + "|" + classOf(secretOnly(s.lbl))
 		ord[base]++
 		siteID[i] = hash32(fmt.Sprintf("%s|%d", base, ord[base]))
 		sep := ","
@@ -1561,23 +1705,17 @@ func main() {
 			kc = 8
 		}
 		fmt.Fprintf(&b, "  { id := %d, taintCode := %d, kindCode := %d, kind := %s, pkg := %s, fn := %s, sink := %s, arg := %s, taint := %s }%s\n",
-			siteID[i], s.lbl.code(), kc, leanStr(s.kind), leanStr(s.pkg), leanStr(s.fn), leanStr(s.sink), leanStr(s.arg), leanStr(s.lbl.String()), sep)
+			siteID[i], s.lbl.code(), kc, leanStr(s.kind), leanStr(s.pkg), leanStr(s.fn), leanStr(s.sink), leanStr(s.arg), leanStr(classOf(s.lbl)), sep)
 	}
 	b.WriteString("]\n\n")
 
-	b.WriteString("/-- A failure kind: a call whose error text embeds the request URL. -/\n")
-	b.WriteString("structure ErrSource where\n  id : Nat\n  urlCode : Nat\n  fn : String\n  call : String\n  url : String\n\n")
+	b.WriteString("/-- A failure kind: an API whose error text embeds the request URL, with the taint class of that URL.\n`id` hashes API and class only. -/\n")
+	b.WriteString("structure ErrSource where\n  id : Nat\n  urlCode : Nat\n  api : String\n  url : String\n  fns : String\n  call : String\n\n")
 	var sids []string
 	for id := range sources {
 		sids = append(sids, id)
 	}
-	sort.Slice(sids, func(i, j int) bool {
-		a, c := sources[sids[i]], sources[sids[j]]
-		if a.fn != c.fn {
-			return a.fn < c.fn
-		}
-		return a.call < c.call
-	})
+	sort.Strings(sids)
 	b.WriteString("def errSources : List ErrSource := [\n")
 	for i, id := range sids {
 		s := sources[id]
@@ -1592,7 +1730,7 @@ func main() {
 		if i == len(sids)-1 {
 			sep = ""
 		}
-		fmt.Fprintf(&b, "  { id := %s, urlCode := %d, fn := %s, call := %s, url := %s }%s\n", id, code, leanStr(s.fn), leanStr(s.call), leanStr(s.url), sep)
+		fmt.Fprintf(&b, "  { id := %d, urlCode := %d, api := %s, url := %s, fns := %s, call := %s }%s\n", hash32(srcClass(id)), code, leanStr(id), leanStr(s.url), leanStr(s.fn), leanStr(s.call), sep)
 	}
 	b.WriteString("]\n\n")
 
@@ -1620,7 +1758,7 @@ func main() {
 				raw = raw || strings.HasPrefix(l, "T:")
 				masked = masked || strings.HasPrefix(l, "M:")
 			}
-			flows = append(flows, fmt.Sprintf("  { source := %s, site := %d, raw := %v, masked := %v, labels := %s }", at, siteID[i], raw, masked, leanStr(strings.Join(ls, "+"))))
+			flows = append(flows, fmt.Sprintf("  { source := %d, site := %d, raw := %v, masked := %v, labels := %s }", hash32(srcClass(at)), siteID[i], raw, masked, leanStr(strings.Join(ls, "+"))))
 		}
 	}
 	b.WriteString(strings.Join(flows, ",\n"))
